@@ -73,6 +73,11 @@ type handle struct {
 	ccArrival *opCtx
 	// read index
 	taken bool
+	// zombies (released without reading): which of the channels obtained at
+	// acceptance still belong to this client alone (a non-empty channel is
+	// replaced when the object is reused; an empty one is shared with the
+	// next owner and must not be touched any more)
+	ownCh, ownCC bool
 }
 
 // opCtx describes the operation that just ran: what it entitles the tables to
@@ -308,6 +313,9 @@ func (t *tracker) observe(oc *opCtx) {
 // consumeLazy reads what a lazy client left in its channels and validates it
 // against the operation it arrived in.
 func (t *tracker) consumeLazy(h *handle) {
+	if h.released && !h.ownCC {
+		h.cc = nil
+	}
 	if h.cc != nil {
 		select {
 		case rr := <-h.cc:
@@ -349,6 +357,8 @@ func (t *tracker) release(i int, read bool) {
 		t.ctx.Count("probe.premature-release", 1)
 		return
 	}
+	h.ownCh = len(h.ch) > 0
+	h.ownCC = h.cc != nil && len(h.cc) > 0
 	h.released = true
 	t.byPtr[h.rs] = h.id
 	t.handles = append(t.handles[:i], t.handles[i+1:]...)
